@@ -3,10 +3,12 @@ import QmiModel.Gen.SyncProgs
 /-!
 # The systems of C11: generated programs + hand-written thread bodies
 
-Function table: indices 0–5 are the **generated** programs (`Gen/SyncProgs.lean`, regenerated from the
+Function table: indices 0–7 are the **generated** programs (`Gen/SyncProgs.lean`, regenerated from the
 QMI sources on every run); the rest are the bodies of the scenario's threads, written here:
 
-* a *stopper* calls `stop_task` once (`stop()` through the RPC worker, or `_request_shutdown`);
+* the first *stopper* executes the generated `QMI_TaskRunner.stop` (what the proxy's `stop()` runs on the RPC worker),
+  a second one the generated `_TaskThread._request_shutdown`; both reach the generated `stop_task`, which is translated
+  for every value of `_TaskThread._state` (`St.tstate`);
 * the *publisher* does what `QMI_SignalReceiver._receive_signal` does, again and again: `with cond: append (bounded
   queue); notify_all()` — a critical section under one lock that touches only state protected by that lock, hence one
   action (DESIGN §3);
@@ -21,15 +23,26 @@ def fStop : Nat := 0
 def fSleep : Nat := 2
 def fGet : Nat := 4
 def fLoop : Nat := 5
-def fMainStopper : Nat := 6
-def fMainPublisher : Nat := 7
-def fMainAny : Nat := 8
-def fMainLoop : Nat := 9
-def fMainSleep : Nat := 10
-def fMainRecvN : Nat := 11
-def fMainRecvT : Nat := 12
+def fRunnerStop : Nat := 6
+def fRequestShutdown : Nat := 7
+def fMainStopper : Nat := 8
+def fMainPublisher : Nat := 9
+def fMainAny : Nat := 10
+def fMainLoop : Nat := 11
+def fMainSleep : Nat := 12
+def fMainRecvN : Nat := 13
+def fMainRecvT : Nat := 14
+def fMainShutdown : Nat := 15
+def fMainIdle : Nat := 16
 
-def mainStopper : Func := { code := [.call fStop, .halt], handlers := [] }
+/-- `proxy.stop()` as executed by the RPC worker: `QMI_TaskRunner.stop()` -/
+def mainStopper : Func := { code := [.call fRunnerStop, .halt], handlers := [] }
+
+/-- interpreter shutdown: `_TaskThread._request_shutdown()` -/
+def mainShutdown : Func := { code := [.call fRequestShutdown, .halt], handlers := [] }
+
+/-- a task thread that is not inside `task.run()` (not started yet, or already finished) -/
+def mainIdle : Func := { code := [.halt], handlers := [] }
 
 def mainPublisher : Func := { code := [.publish, .jmp 0], handlers := [] }
 
@@ -52,7 +65,8 @@ def mainRecvN : Func :=
 def mainRecvT : Func :=
   { code := [.ldConst true, .setTimed, .call fGet, .jmp 2], handlers := [⟨2, 3, 3, some .timeout⟩] }
 
-def mains : List Func := [mainStopper, mainPublisher, mainAny, mainLoop, mainSleep, mainRecvN, mainRecvT]
+def mains : List Func :=
+  [mainStopper, mainPublisher, mainAny, mainLoop, mainSleep, mainRecvN, mainRecvT, mainShutdown, mainIdle]
 
 def funcs : List Func := Gen.SyncProgs.funcs ++ mains
 
@@ -60,17 +74,46 @@ def th0 (fn : Nat) (isTask : Bool) : Th :=
   { fn := fn, pc := 0, stack := [], acc := false, locs := 0, exc := none, park := .no, expired := false,
     timed := false, isTask := isTask, status := .run }
 
-def st0 (ths : List Th) : St :=
-  { flag := false, wc := false, qlen := 0, lwcl := none, lsc := none, lqc := none, fin := 0, ths := ths }
+def st0 (tstate : Nat) (ths : List Th) : St :=
+  { flag := false, wc := false, qlen := 0, lwcl := none, lsc := none, lqc := none, fin := 0, tstate := tstate, ths := ths }
+
+/-- the stoppers: the first is `stop()`, every further one `_request_shutdown` -/
+def stoppers : Nat → List Th
+  | 0 => []
+  | n+1 => th0 fMainStopper false :: List.replicate n (th0 fMainShutdown false)
 
 /-- `mkWith gen taskMain nStop publisher`: task thread 0, stoppers 1..nStop, then (optionally) the publisher -/
-def mkWith (gen : List Func) (taskMain : Nat) (nStop : Nat) (publisher : Bool) (cap : Nat := 1) : Sys :=
+def mkWith (gen : List Func) (taskMain : Nat) (nStop : Nat) (publisher : Bool) (cap : Nat := 1)
+    (tstate : Nat := Gen.SyncProgs.stRunning) : Sys :=
   { funcs := gen ++ mains, cap := cap, nStop := nStop,
-    init := st0 ([th0 taskMain true] ++ List.replicate nStop (th0 fMainStopper false)
+    init := st0 tstate ([th0 taskMain true] ++ stoppers nStop
                  ++ (if publisher then [th0 fMainPublisher false] else [])) }
 
-def mk (taskMain : Nat) (nStop : Nat) (publisher : Bool) (cap : Nat := 1) : Sys :=
-  mkWith Gen.SyncProgs.funcs taskMain nStop publisher cap
+def mk (taskMain : Nat) (nStop : Nat) (publisher : Bool) (cap : Nat := 1) (tstate : Nat := Gen.SyncProgs.stRunning) : Sys :=
+  mkWith Gen.SyncProgs.funcs taskMain nStop publisher cap tstate
+
+/-- stop request(s) reaching a task thread that is **not** running `task.run()`: `_state = tstate` -/
+def sysEarly (tstate : Nat) (nStop : Nat) : Sys := mk fMainIdle nStop false 1 tstate
+
+/-- every stop request of the system has returned -/
+def allStoppersDone (sys : Sys) (s : St) : Bool :=
+  (List.range sys.nStop).all fun i => match s.ths[i+1]? with | some t => t.status == .done | none => false
+
+/-- what `_state` must be once every stop request issued in state `init` has returned: a task that had not been
+    started is marked "stopped before start" (its `run()` will never be called, so it never waits); every other state
+    is left alone -/
+def expectedFinal (init : Nat) : Nat :=
+  if init == Gen.SyncProgs.stInitial || init == Gen.SyncProgs.stReady then Gen.SyncProgs.stStoppedBeforeStart else init
+
+/-- obligations of `stop_task` for a task thread that is not inside `task.run()`: no error of the primitives or
+    assertion, the stop requests never block each other for ever, `_state` ends as expected, and unless the task was
+    never started (or failed to be constructed) a completed stop request has set the flag -/
+def earlyGood (sys : Sys) (init : Nat) (s : St) : Bool :=
+  !anyCrashed s && (allStoppersDone sys s || !(succs sys s).isEmpty) &&
+  (!allStoppersDone sys s || s.tstate == expectedFinal init) &&
+  (init == Gen.SyncProgs.stInitial || init == Gen.SyncProgs.stReady || init == Gen.SyncProgs.stExcInit ||
+    stopSetsFlag sys s) &&
+  (init != Gen.SyncProgs.stExcInit || !s.flag)
 
 /-- `sleep()` in a loop, one stop request -/
 def sysSleep : Sys := mk fMainSleep 1 false
